@@ -289,8 +289,15 @@ func vsReadReply(br *bufio.Reader, maxBulk int) vsReply {
 	if err != nil {
 		return vsReply{Kind: 'X'}
 	}
+	// Int=1 marks "ran out of bytes" as opposed to "wrong bytes".
 	bad := func(format string, a ...any) vsReply {
-		return vsReply{Kind: '?', Str: fmt.Sprintf(format, a...)}
+		r := vsReply{Kind: '?', Str: fmt.Sprintf(format, a...)}
+		for _, x := range a {
+			if e, ok := x.(error); ok && (e == io.EOF || e == io.ErrUnexpectedEOF) {
+				r.Int = 1
+			}
+		}
+		return r
 	}
 	switch t {
 	case '+', '-', ':':
@@ -345,7 +352,9 @@ func vsReadReply(br *bufio.Reader, maxBulk int) vsReply {
 		for i := 0; i < n; i++ {
 			e := vsReadReply(br, maxBulk)
 			if e.Kind == 'X' {
-				return bad("array truncated after %d of %d elements", i, n)
+				r := bad("array truncated after %d of %d elements", i, n)
+				r.Int = 1
+				return r
 			}
 			if e.Kind == '?' {
 				return e
